@@ -135,6 +135,11 @@ def run():
                       vlib.model_check("SharedStateImpl", cfgf, timeout=600))
     r2 = vlib.model_check("SharedStateImpl", "SharedStateImpl_dev.cfg", expect_ok=False, timeout=600)
     chk.add_model("SharedStateImpl/variant flag_after_lock (must violate)", r2, note="violated: %s" % r2["violated"])
+    for cfgf in ("WhenAllImpl_vee.cfg", "WhenAllImpl_ves.cfg", "WhenAllImpl_vvv.cfg"):
+        chk.add_model("WhenAllImpl/%s (flag exchange, error slot, countdown)" % cfgf[12:-4],
+                      vlib.model_check("WhenAllImplMC", cfgf, timeout=600))
+    r3 = vlib.model_check("WhenAllImplMC", "WhenAllImpl_dev.cfg", expect_ok=False, timeout=600)
+    chk.add_model("WhenAllImpl/variant check_then_act (must violate)", r3, note="violated: %s" % r3["violated"])
     reps = 4 if chk.thorough() else 2
     recs = []
     for rep in range(reps):
